@@ -378,9 +378,52 @@ pub fn run(ctx: &Ctx, replay: Option<&J>) -> i32 {
         .flat_map(|i| (0..all.len()).map(move |j| (i, j)))
         .filter(|(i, j)| all[*i].category == all[*j].category)
         .collect();
-    par_for(pairs.len(), |k| {
-        let (i, j) = pairs[k];
-        let (a, b) = (all[i].identifiers[0], all[j].identifiers[0]);
+    // identifier-level pairs: (a) every identifier of every unit -> the first identifier of every unit of
+    // its category, (b) every two identifiers (and their upper / lower case variants) that are equal
+    // ignoring ASCII case but differently spelled, whatever their categories, (c) every ordered pair of
+    // first identifiers of different categories (never convertible)
+    let mut id_pairs: Vec<(String, String)> = vec![];
+    for (i, j) in &pairs {
+        id_pairs.push((all[*i].identifiers[0].to_string(), all[*j].identifiers[0].to_string()));
+        for a in all[*i].identifiers.iter().skip(1) {
+            id_pairs.push((a.to_string(), all[*j].identifiers[0].to_string()));
+        }
+    }
+    {
+        let mut spellings: Vec<String> = vec![];
+        for u in &all {
+            for id in u.identifiers.iter() {
+                spellings.push(id.to_string());
+                spellings.push(id.to_uppercase());
+                spellings.push(id.to_lowercase());
+            }
+        }
+        spellings.sort();
+        spellings.dedup();
+        let mut by_fold: std::collections::BTreeMap<String, Vec<String>> = Default::default();
+        for sp in spellings {
+            by_fold.entry(sp.to_ascii_lowercase()).or_default().push(sp);
+        }
+        for group in by_fold.values() {
+            for a in group {
+                for b in group {
+                    id_pairs.push((a.clone(), b.clone()));
+                }
+            }
+        }
+        for i in 0..all.len() {
+            for j in 0..all.len() {
+                if all[i].category != all[j].category {
+                    id_pairs.push((all[i].identifiers[0].to_string(), all[j].identifiers[0].to_string()));
+                }
+            }
+        }
+        id_pairs.sort();
+        id_pairs.dedup();
+    }
+    ctx.set("builtin_identifier_pairs", json!(id_pairs.len()));
+    par_for(id_pairs.len(), |k| {
+        let (a, b) = (id_pairs[k].0.as_str(), id_pairs[k].1.as_str());
         let q = |s: &str| if s.contains('"') { format!("'{}'", s) } else { format!("\"{}\"", s) };
         let src = format!("convert(2.5, {}, {})", q(a), q(b));
         let got = eval_fresh(&src);
